@@ -1713,6 +1713,16 @@ macro_rules! calculate_rm {
 
 pub(crate) use calculate_rm;
 
+#[cfg(all(ax_verif, not(test)))]
+macro_rules! fatal_error {
+    ($message:expr, $($arg:tt)*) => {{
+        return Err(AxError::from(format!($message, $($arg)*)).into());
+    }};
+    ($message:expr) => {{
+        return Err(AxError::from($message).into());
+    }};
+}
+#[cfg(not(all(ax_verif, not(test))))]
 macro_rules! fatal_error {
     ($message:expr, $($arg:tt)*) => {{
         #[cfg(all(target_arch = "wasm32", not(test)))]
@@ -1755,6 +1765,16 @@ macro_rules! assert_fatal {
 }
 pub(crate) use assert_fatal;
 
+#[cfg(all(ax_verif, not(test)))]
+macro_rules! opcode_unimplemented {
+    ($message:expr) => {{
+        return Err(AxError::from(format!(
+            "Executed unimplemented opcode: {}",
+            $message
+        )));
+    }};
+}
+#[cfg(not(all(ax_verif, not(test))))]
 macro_rules! opcode_unimplemented {
     ($message:expr) => {{
         #[cfg(target_arch = "wasm32")]
